@@ -27,11 +27,10 @@ META = {
         'Allen relations x both acquisition orders x same/different number x default/SHARED opens, the D4 shape (#1 holds 5 TO 6, LOCK #2, '
         '4 TO 7), whole-file locks, unlock with 8 perturbed bounds, OUTPUT/APPEND x second-open matrix; plus seeded adaptive histories.'),
     'level_note': (
-        'Trusted: the harness, error messages mapped to codes. Not pinned by the statement, hence only observed and counted: whether a '
+        'Trusted: the harness, error messages mapped to codes. Pinned from the tree / GW-BASIC manual: LOCK and UNLOCK through a sequential-mode number (INPUT, OUTPUT, APPEND) ignore the bounds given and act on the whole file, so the model holds a whole-file lock for them and every LOCK / GET / PUT through another number must be refused whatever the bounds said. Not pinned by the statement, hence only observed and counted: whether a '
         'non-overlapping LOCK, an exact UNLOCK, an access outside foreign locks, or a second OPEN among INPUT/RANDOM numbers succeeds '
         '(sharing matrix of ACCESS/LOCK clauses); which error a refused OPEN/GET/PUT/UNLOCK gives; locks of a CLOSEd number (the model '
-        'drops them); access inside one\'s own lock; range bounds on sequential-mode numbers (only whole-file LOCK/UNLOCK is issued '
-        'there); the record position after a refused access (the model forgets it; no implicit access until an explicit one succeeds); reversed or out-of-range bounds; bounds above 2^24 (record numbers are single precision in GW-BASIC, so e.g. 26228589 and 26228588 are the same bound: observed, UNLOCK with the aliased bound succeeds). Internal lock-set inspection is informational '
+        'drops them); access inside one\'s own lock;  the record position after a refused access (the model forgets it; no implicit access until an explicit one succeeds); reversed or out-of-range bounds; bounds above 2^24 (record numbers are single precision in GW-BASIC, so e.g. 26228589 and 26228588 are the same bound: observed, UNLOCK with the aliased bound succeeds). Internal lock-set inspection is informational '
         '(skipped silently if the attributes are renamed). Two GW-BASIC-compatible behaviours contradict the literal statement and are '
         'reported under their own keys: OPEN FOR INPUT/RANDOM of a file open FOR OUTPUT/APPEND is accepted, and GET inside a lock held '
         'through such an OUTPUT/APPEND number is accepted (tests/basic/unsorted/LockFilesOutput model from GW-BASIC 3.23).'),
@@ -43,6 +42,7 @@ META = {
                                  'access_refused_in_foreign_lock', 'second_open_refused', 'histories_with_3_numbers',
                                  'opens_with_other_spelling_of_open_file', 'locks_refused_across_spellings',
                                  'implicit_access_refused_in_foreign_lock', 'implicit_first_access_of_fresh_number',
+                                 'ranged_locks_held_through_sequential_number', 'access_refused_by_lock_of_sequential_number',
                                  'allen_relations_exercised']},
     'timeout': {'quick': 900, 'thorough': 10800},
 }
@@ -206,11 +206,16 @@ class History(object):
         if n not in self.open:
             return
         rng = op['range'] if op['range'] == M.WHOLE else tuple(op['range'])
+        asked = rng
         if self.open[n]['mode'] != 'R':
+            # a lock through a sequential-mode number (INPUT / OUTPUT / APPEND) covers the whole file whatever
+            # bounds are given (GW-BASIC manual; pinned from the tree): the model holds WHOLE for it
+            if rng != M.WHOLE:
+                self.res.count('ranged_lock_requests_through_sequential_number')
             rng = M.WHOLE
         self.lock_requests += 1
         conflicts = self.table.conflicts(rng)
-        code, out = self.ex(b'LOCK #%d%s' % (n, range_text(rng, op.get('form', 'to'))))
+        code, out = self.ex(b'LOCK #%d%s' % (n, range_text(asked, op.get('form', 'to'))))
         for hn, hr in conflicts:
             self.res.count('allen_relations_exercised')
             self.res.count('rel_' + M.allen(rng, hr))
@@ -236,6 +241,8 @@ class History(object):
             if code == 0:
                 self.table.add(n, rng)
                 self.res.count('locks_granted')
+                if asked != rng:
+                    self.res.count('ranged_locks_held_through_sequential_number')
                 self.res.maxc('max_ranges_held', len(self.table.held))
             else:
                 self.res.count('nonoverlapping_lock_refused_unpinned')
@@ -245,9 +252,11 @@ class History(object):
         if n not in self.open:
             return
         rng = op['range'] if op['range'] == M.WHOLE else tuple(op['range'])
+        asked = rng
         if self.open[n]['mode'] != 'R':
+            # bounds are ignored on sequential-mode numbers: any UNLOCK names the whole-file lock
             rng = M.WHOLE
-        code, out = self.ex(b'UNLOCK #%d%s' % (n, range_text(rng, op.get('form', 'to'))))
+        code, out = self.ex(b'UNLOCK #%d%s' % (n, range_text(asked, op.get('form', 'to'))))
         if code == 0:
             if self.table.holds(n, rng):
                 self.table.remove(n, rng)
@@ -302,6 +311,8 @@ class History(object):
                 self.fail('access:%s%s-inside-range-locked-through-another-number-accepted' % (how, verb.decode().lower()),
                           '#%d holds %r; %r reached record %d and succeeded' % (hn, hr, cmd, r))
             self.res.count('access_refused_in_foreign_lock')
+            if hr == M.WHOLE and self.open[hn]['mode'] != 'R':
+                self.res.count('access_refused_by_lock_of_sequential_number')
             if implicit:
                 self.res.count('implicit_access_refused_in_foreign_lock')
         else:
@@ -382,6 +393,9 @@ def random_history(rng, h):
             op['access'] = 'W'
         if mode == 'A' and op['access'] not in ('', 'RW'):
             op['access'] = ''
+        if mode in 'IR' and rng.random() < 0.3:
+            # if this OPEN is accepted next to an OUTPUT/APPEND holder (known deviation), keep both numbers open
+            op['keep'] = True
         if not op['lock'] and not op['access'] and rng.random() < 0.3:
             op['syntax'] = 'old'
         elif mode == 'R' and rng.random() < 0.2:
@@ -511,6 +525,21 @@ def directed_scripts(part):
                                     {'op': 'unlock', 'f': 1, 'range': held}, {'op': 'get', 'f': 3, 'r': 1}, {'op': 'lock', 'f': 1, 'range': (2, 3)},
                                     {'op': verb, 'f': 3, 'r': None}, {'op': 'get', 'f': 2, 'r': 3}, {'op': 'get', 'f': 2, 'r': 1}, {'op': 'put', 'f': 2, 'r': None},
                                     {'op': 'close', 'f': 1}, {'op': 'close', 'f': 2}, {'op': 'close', 'f': 3}])
+            # ranged LOCK / UNLOCK through a sequential-mode number (INPUT, OUTPUT, APPEND) next to a RANDOM number
+            for seqmode in 'IOA':
+                for held in ((3, 5), (1, 1), (12, 40)):
+                    a, b = held
+                    scripts.append([_op_open(1, mode=seqmode, lock=fam), _op_open(2, lock=fam, keep=True), _op_open(3, lock=fam, keep=True),
+                                    {'op': 'lock', 'f': 1, 'range': held, 'form': 'single'},
+                                    {'op': 'get', 'f': 2, 'r': a}, {'op': 'put', 'f': 2, 'r': b}, {'op': 'get', 'f': 3, 'r': b + 4},
+                                    {'op': 'put', 'f': 2, 'r': b + 4}, {'op': 'put', 'f': 3, 'r': b + 1}, {'op': 'put', 'f': 3, 'r': None},
+                                    {'op': 'lock', 'f': 2, 'range': (b + 3, b + 4)}, {'op': 'lock', 'f': 3, 'range': held}, {'op': 'lock', 'f': 1, 'range': (b + 6, b + 7)},
+                                    {'op': 'unlock', 'f': 2, 'range': held}, {'op': 'unlock', 'f': 1, 'range': (a, b + 1)},
+                                    {'op': 'lock', 'f': 2, 'range': (b + 3, b + 4)}, {'op': 'lock', 'f': 1, 'range': (a, b)},
+                                    {'op': 'put', 'f': 3, 'r': b + 3}, {'op': 'put', 'f': 3, 'r': a},
+                                    {'op': 'unlock', 'f': 2, 'range': (b + 3, b + 4)}, {'op': 'lock', 'f': 1, 'range': (50, 60)},
+                                    {'op': 'put', 'f': 2, 'r': a}, {'op': 'lock', 'f': 3, 'range': (1, 2)}, {'op': 'unlock', 'f': 1, 'range': M.WHOLE},
+                                    {'op': 'put', 'f': 2, 'r': a}, {'op': 'close', 'f': 1}, {'op': 'close', 'f': 2}, {'op': 'close', 'f': 3}])
             # a sequential-mode number next to a random one
             scripts.append([_op_open(1, lock=fam), _op_open(2, mode='I', lock=fam), {'op': 'lock', 'f': 2, 'range': M.WHOLE},
                             {'op': 'lock', 'f': 1, 'range': (2, 3)}, {'op': 'get', 'f': 1, 'r': 2}, {'op': 'put', 'f': 1, 'r': 5},
